@@ -222,6 +222,11 @@ def inputs(tier, seed):
     # records with OPTIONAL members left out (guides with a value constraint on such a member must cope), a CHOICE
     out += [b'\x30\x03\x01\x01\xff', b'\x30\x06\x02\x01\x03\x01\x01\xff', b'\x30\x06\x02\x01\x09\x01\x01\xff',
             b'\x30\x80\x01\x01\x00\x00\x00', b'\x31\x03\x01\x01\xff', b'\x02\x01\x05', b'\x01\x01\xff']
+    # constructed strings whose segments are themselves constructed (X.690 8.7.3.2 allows it): valid input, rarely produced
+    out += [bytes.fromhex(h) for h in (
+        '24802480040161000004016200 00', '240a24800401610000040162', '2c802480 0402c3a9 0000 0000', '2480 2405 0401 61 0401 62 0000',
+        '2380 2380 0302 0061 0000 0000', '2309 2380 0302 0061 0000 03 00'.replace(' ', '') + '', '3080 2480 2480 0401 61 0000 0000 0000',
+        'a080 2480 2480 0401 61 0000 0000 0000')]
     # explicit tags with nothing / too much inside
     out += [b'\xa0\x00', b'\xa0\x80\x00\x00', b'\xa1\x06\x02\x01\x01\x02\x01\x02', b'\xa1\x80\x02\x01\x01\x02\x01\x02\x00\x00']
     # single-edit neighbours of valid encodings
